@@ -2,7 +2,7 @@
 EXTENDS Catalog, IoAsync
 CONSTANTS MsgId, NMsgs
 MT == TypeOf(MsgId)
-GenLen == MinSize(MT) + 2 * Align(MT) + 1
+GenLen == RoomyMin(MT) + 2 * Align(MT) + 1
 Conts == LET tv == TV(MT, GenLen)  n == Len(tv)  m == MinI(n, 5)
              idx(j) == IF m = 1 THEN 1 ELSE 1 + ((j - 1) * (n - 1)) \div (m - 1)
          IN [j \in 1..m |-> Content(tv[idx(j)], MT)]
